@@ -153,6 +153,10 @@ OBS_CFG = "INIT Init\nNEXT Next\nINVARIANT TypeOK\nINVARIANT CoverageOK\nCHECK_D
 
 def main():
     ck = core.Check("C18", "model_checking")
+    if ck.args.replay:
+        from vlib import sysrun as _sr
+
+        _sr.replay(ck, "C18", ck.args.replay)
     import concurrent.futures as cf
     import multiprocessing as mp
 
